@@ -3,6 +3,7 @@ INVARIANT NoMisuse
 INVARIANT FreeHasNoHolder
 INVARIANT FreeDistinct
 INVARIANT HeldNotFree
+PROPERTY Refines
 CONSTANTS
   Gor <- GorV
   Shape <- ShapeV
